@@ -8,7 +8,7 @@
    sibling priority) — every theorem holds for ALL tables unless it names the regenerated lists
    (Gen_C18.v), with which the check instantiates them.  The compressor is any pair [gz]/[gunzip]
    with gunzip (gz ws) = Some (concat ws) (a premise, not an axiom).  [wb s]: the handler sets
-   headers, then calls WriteHeader at most once before its first Write/Flush, then only writes
+   headers, then starts the response with a WriteHeader, a Write or a Flush, then only writes
    and flushes (any number, any chunking, any payload). *)
 Require Import V.Lib V.GoPath V.Gen_C18 V.C18_Model V.C18_Proofs.
 Open Scope N_scope.
@@ -47,18 +47,16 @@ Theorem C18_client_decodes_identity_body :
 Proof. intros gz gunzip Hrt dexts. exact (client_view dexts gz gunzip Hrt). Qed.
 Print Assumptions C18_client_decodes_identity_body.
 
-(* The statement without the restriction to well-behaved handlers is false of the code. *)
-(* (a) handlers that are not well-behaved: a Flush before the header is written commits the
-   headers without Content-Encoding, the body is compressed all the same *)
-Theorem C18_flush_before_header_refuted :
-  exists cfgs path ae s,
-  let out := gzip_serve [[]; bs ".txt"] false cfgs path ae s in
-  r_ce (run_plain s) = [] /\ applied out = [GZIP] /\ r_ce out = [] /\
-  forall gz, wire gz false out = gz [[1; 2; 3]] /\ wire gz false (run_plain s) = [1; 2; 3].
-Proof. exists [bare], (bs "/x"), (bs "gzip"), [OFlush; OWrite [1; 2; 3]]. exact flush_first_witness. Qed.
-Print Assumptions C18_flush_before_header_refuted.
+(* a Flush before the header is written is one of the well-behaved ways to start a response: the
+   gzip layer writes its header first, so the flushed headers name the coding of the body *)
+Example C18_flush_before_header_covered :
+  let s := [OSet K_CL (bs "3"); OFlush; OWrite [1; 2; 3]] in
+  let out := gzip_serve [[]; bs ".txt"] false [bare] (bs "/x") (bs "gzip") s in
+  wb s = true /\ r_ce out = [GZIP] /\ r_cl out = [] /\ r_segs out = [SG [[1; 2; 3]]].
+Proof. vm_compute. repeat split; reflexivity. Qed.
 
-(* (b) a second WriteHeader re-runs the response filters, which now see "Content-Encoding: gzip"
+(* The statement without the restriction to well-behaved handlers is false of the code: *)
+(* a second WriteHeader re-runs the response filters, which now see "Content-Encoding: gzip"
    and switch compression off: plain bytes (plus an empty gzip stream) under a gzip label *)
 Theorem C18_repeated_writeheader_refuted :
   exists cfgs path ae s,
